@@ -302,6 +302,22 @@ func addToWaitingQueriesQueue(wsData *WaitStateData) error {
 	return nil
 }
 
+// Removes the query from the waiting queue and returns it.
+// The caller must hold arqMapLock, so that a query is always found either in the
+// waiting queue or in allRunningQueries.
+func withLockRemoveFromWaitingQueriesQueue(qid uint64) (*RunningQueryState, bool) {
+	waitingQueriesLock.Lock()
+	defer waitingQueriesLock.Unlock()
+	for i, wsData := range waitingQueries {
+		if wsData.qid == qid {
+			waitingQueries = append(waitingQueries[:i], waitingQueries[i+1:]...)
+			return wsData.rQuery, true
+		}
+	}
+
+	return nil, false
+}
+
 // Starts tracking the query state. RunningQueryState.StateChan will be defined & can be used to send query updates.
 // If forceRun is true, the query will be run immediately, otherwise it will be added to the waiting queue.
 // Caller is responsible to call DeleteQuery.
@@ -411,7 +427,11 @@ func DeleteQuery(qid uint64) {
 	arqMapLock.Lock()
 	defer arqMapLock.Unlock()
 
-	rQuery := allRunningQueries[qid]
+	rQuery, ok := allRunningQueries[qid]
+	if !ok {
+		// The query may still be waiting to run; it must not be started later.
+		rQuery, _ = withLockRemoveFromWaitingQueriesQueue(qid)
+	}
 
 	rQuery.withLockDeleteQuery()
 }
@@ -422,7 +442,9 @@ func (rQuery *RunningQueryState) withLockDeleteQuery() {
 	}
 
 	if !rQuery.isCancelled {
-		rQuery.timeoutCancelFunc()
+		if rQuery.timeoutCancelFunc != nil { // nil if the query was never started
+			rQuery.timeoutCancelFunc()
+		}
 
 		if rQuery.cleanupCallback != nil {
 			rQuery.cleanupCallback()
@@ -450,6 +472,8 @@ func initiateRunQuery(wsData *WaitStateData, segsRLockFunc, segsRUnlockFunc func
 	RunQuery(*wsData)
 }
 
+// Returns the query at the head of the waiting queue. It stays in the queue until RunQuery
+// moves it to allRunningQueries, so that it can be cancelled or deleted at any time.
 func getNextWaitStateData() *WaitStateData {
 	waitingQueriesLock.Lock()
 	defer waitingQueriesLock.Unlock()
@@ -458,9 +482,7 @@ func getNextWaitStateData() *WaitStateData {
 		return nil
 	}
 
-	wsData := waitingQueries[0]
-	waitingQueries = waitingQueries[1:]
-	return wsData
+	return waitingQueries[0]
 }
 
 func PullQueriesToRun(ctx context.Context) {
@@ -524,9 +546,15 @@ func withLockRunQuery(wsData *WaitStateData) {
 	wsData.rQuery.StateChan <- &QueryStateChanData{StateName: RUNNING, Qid: wsData.qid}
 }
 
+// Moves a waiting query to allRunningQueries and starts it.
 func RunQuery(wsData WaitStateData) {
 	arqMapLock.Lock()
 	defer arqMapLock.Unlock()
+
+	if _, ok := withLockRemoveFromWaitingQueriesQueue(wsData.qid); !ok {
+		// The query was cancelled or deleted in the meantime
+		return
+	}
 
 	withLockRunQuery(&wsData)
 }
@@ -792,6 +820,10 @@ func CancelQuery(qid uint64) {
 	_ = logGlobalSearchErrors(qid) // not checking return err val, since query is getting deleted
 	arqMapLock.RLock()
 	rQuery, ok := allRunningQueries[qid]
+	if !ok {
+		// The query may still be waiting to run; take it out of the queue so that it is never started.
+		rQuery, ok = withLockRemoveFromWaitingQueriesQueue(qid)
+	}
 	arqMapLock.RUnlock()
 	if !ok {
 		log.Debugf("CancelQuery: qid %+v does not exist!", qid)
@@ -804,15 +836,7 @@ func CancelQuery(qid uint64) {
 	}
 	rQuery.rqsLock.Unlock()
 
-	waitingQueriesLock.Lock()
-	defer waitingQueriesLock.Unlock()
-	for i, wsData := range waitingQueries {
-		if wsData.qid == qid {
-			waitingQueries = append(waitingQueries[:i], waitingQueries[i+1:]...)
-			break
-		}
-	}
-
+	// No lock is held here: if the receiver is slow, only this cancellation waits.
 	rQuery.StateChan <- &QueryStateChanData{StateName: CANCELLED, Qid: qid}
 }
 
